@@ -121,7 +121,8 @@ func registerC02() {
 		Level: "exploration",
 		Rule: "model streams: PRNG-determined plans (file type cycles over the 17 containers; definitions = random subsets/permutations of profile fields with compatible " +
 			"definition types incl. narrower integer types, over-long arrays and strings, both byte orders, interleaved unknown fields/messages/developer fields) and the device " +
-			"corpus parsed by the independent grammar parser; a case is non-trivial when Decode accepted it and at least one known field was compared against the model; distinct by stream digest",
+			"corpus parsed by the independent grammar parser; family large: streams of 300-2500 records (10-120 KB) so that every kind of field, " +
+			"definition and skipped block straddles the decoder's 4096-byte buffer refills at all alignments, read through short-reading chunkers; a case is non-trivial when Decode accepted it and at least one known field was compared against the model; distinct by stream digest",
 		Assume: []string{
 			"which struct field a (message, field number) pair lands in is taken from the hook table (its correctness is C15's subject)",
 			"narrow definitions never carry the narrow type's own invalid value (its meaning is not defined by the statement)",
@@ -131,6 +132,7 @@ func registerC02() {
 		Families: []lib.Family{
 			{Name: "model", N: func(t string) uint64 { return tierN(t, 160000, 3000000) }, Run: c02Model},
 			{Name: "device", N: func(t string) uint64 { return uint64(len(Corpus())) }, Run: c02Device},
+			{Name: "large", N: func(t string) uint64 { return tierN(t, 1500, 60000) }, Run: c02Large},
 		},
 		Finish: func(c *lib.Ctx, cov map[string]interface{}) {
 			fields, total := 0, 0
@@ -333,4 +335,43 @@ func compatibleDef(pf *ref.PField, f ref.FieldDef) bool {
 		return true
 	}
 	return db.Integer && pb.Integer && db.Signed && pb.Signed && db.Size < pb.Size
+}
+
+// c02Large: long streams through chunked readers: values must not depend on where the decoder's
+// internal buffer happens to be refilled.
+func c02Large(c *lib.Ctx, idx uint64) {
+	rng := lib.NewRand("C02.large", idx)
+	o := c02Opts(rng, idx)
+	o.Records = 300 + rng.Intn(2200)
+	o.MaxFields = 10
+	g := lib.NewPlanGen(rng, o)
+	plan := g.Fill()
+	b := plan.Bytes()
+	c.SetInflight(b)
+	ex, err := lib.Expect(plan, lib.ExpectOpts{})
+	if err != nil || ex.Fail {
+		c.Violation(b, "harness: model failed: %v", err)
+		return
+	}
+	chs := []lib.Chunker{{Kind: "whole"}, {Kind: "rand", Size: 700, R: rng}, {Kind: "fixed", Size: 4095}, {Kind: "fixed", Size: 4097}, {Kind: "rand", Size: 9000, R: rng, Zero: true}, {Kind: "fixed", Size: 1000}}
+	ch := chs[idx%uint64(len(chs))]
+	var res lib.CallResult
+	out := lib.Guard(func() { res = lib.Call("Decode", lib.NewReader(b, ch)) })
+	c.Eval()
+	if out.Panicked || out.Hang {
+		c.Violation(b, "Decode (%s reads) panicked/hung on a long well-formed stream: %s", ch, out.Panic)
+		return
+	}
+	if res.Err != nil {
+		c.Violation(b, "Decode (%s reads) rejected a long well-formed stream of %d bytes: %v", ch, len(b), res.Err)
+		return
+	}
+	got := lib.FileContent(res.File)
+	if diffs := lib.CompareContent(ex.Content, got, lib.CompareOpts{Header: true, Skip: compSkip(plan, ex)}); len(diffs) > 0 {
+		c.Violation(b, "long stream (%d bytes, %s reads): decoded content differs from the wire values: %s", len(b), ch, lib.DiffsString(diffs, 4))
+		return
+	}
+	countPlanCoverage(c, plan, "large_")
+	c.Count("large_stream_bytes", int64(len(b)))
+	c.Nontrivial(b)
 }
